@@ -2,6 +2,7 @@ import Copia.Props.C08c
 import Copia.Props.C02
 import Copia.Props.C06
 import Copia.Lemmas.Crash8
+import Copia.Props.C02b
 /-!
 # C08 — recovery: running `bisync` again after a kill at ANY point
 
@@ -102,6 +103,25 @@ theorem recovery_loses_nothing (le : P → P → Bool)
     rcases hB p c h with ⟨q, h1, h2⟩ | h'
     · exact Or.inl ⟨q, by rw [(hsame q).1]; exact h1, by rw [(hsame q).2]; exact h2⟩
     · exact Or.inr h'
+
+/-- C08 / C06 (the recovery run records what it leaves): when the killed run's record is still the old one, the
+recovery run completes, leaves both sides equal at every path, and the archive it writes records exactly that tree —
+so the run after it plans nothing (C06's idempotence applies to it as to any completed run). -/
+theorem recovery_records_the_tree (le : P → P → Bool)
+    (trans : ∀ a b c, le a b → le b c → le a c) (total : ∀ a b, le a b || le b a)
+    (antisymm : ∀ a b, le a b → le b a → a = b) (ge : C → C → Bool) (cname : P → C → P) (s : State P C)
+    (nnc : NoNameClash ge cname s.A s.B (bisyncPlan le s)) (k : Nat)
+    (hk : k < ((runGroups le ge cname s).flatMap Group.steps).length) :
+    let r := (((runGroups le ge cname s).flatMap Group.steps).take k).foldl exec (initC s)
+    let T : State P C := { A := r.A, B := r.B, arch := s.arch }
+    (bisync le ge cname T).status ≠ .ioError ∧
+    (∀ q, get (bisync le ge cname T).state.A q = get (bisync le ge cname T).state.B q) ∧
+    ∃ m, (bisync le ge cname T).state.arch = some m ∧
+      ∀ q, lookup m q = (get (bisync le ge cname T).state.A q).map mkFp := by
+  intro r T
+  obtain ⟨done, todo, hplan, inv⟩ := crash_state le trans total antisymm ge cname s nnc k hk
+  have bc := benign_of_crashInv le trans total antisymm ge cname s nnc done todo hplan T rfl inv
+  exact Copia.C06.converges_benign le trans total antisymm ge cname T bc
 
 /-- non-vacuity: `recovery`'s hypotheses are met by the run of `C02.s0` (a divergent edit + a delete against a
 trusted archive, `C02.s0_noNameClash`) for every kill point and every record — e.g. killed before its 5th call -/
